@@ -80,7 +80,9 @@ Definition traffic_model (v : tval) : rsh * list rpc :=
 Definition check_traffic (v : tval) : bool :=
   let '(sh, ls) := traffic_model v in
   Z.eqb (r_stats sh) (dec_z (vnth 5 v)) && z_list_eqb (r_calls sh) (map dec_z (vl (vnth 6 v)))
-  && Z.eqb (r_last sh) (dec_z (vnth 7 v)) && forallb r_finished ls.
+  && Z.eqb (r_last sh) (dec_z (vnth 7 v))
+  (* every reporter that was started has returned in the model as well (never-started ones are still at RLock) *)
+  && forallb (fun t => r_finished t || match t with RLock => true | _ => false end) ls.
 
 (* ---- kind 4: StreamProcessor read against Close ---- *)
 (* the op performs `uses` reader calls, Close runs to completion, the op performs one more; separately an op started after
